@@ -1,9 +1,10 @@
 //! C06 Alpha multiply is exactly rounded, alpha divide is faithful and saturating.
 //!
-//! Every harness drives the public `MulDiv` entry points on a 1-row image.  One pixel, at a
-//! symbolic position of the row, has symbolic (colour.., alpha); the other pixels are fixed.
-//! The operations are per-pixel, so this quantifies over every (colour, alpha) pair in every
-//! lane position of the vector main loop, the remainder and the tail.
+//! Every harness drives the public `MulDiv` entry points on a 1-row image.  One pixel, at an
+//! enumerated position of the row (first lane, last lane of the vector chunk, remainder; all
+//! positions in the thorough tier), has symbolic (colour.., alpha); the other pixels are fixed
+//! and checked too.  The operations are per-pixel, so this quantifies over every
+//! (colour, alpha) pair in those lane positions.
 use crate::kern::{as_pixels, as_pixels_mut, KComp};
 use fast_image_resize::images::*;
 use fast_image_resize::pixels::*;
@@ -14,18 +15,18 @@ fn mul_spec(c: u64, a: u64, max: u64) -> u64 {
     (2 * c * a + max) / (2 * max)
 }
 
-/// Is `r` an acceptable result of c * max / a (faithful rounding, saturated at max, a = 0 -> 0)?
+/// Is `r` an acceptable result of c * max / a (one of the two neighbouring integers, saturated
+/// at max; a = 0 -> 0)?  Written without division (a 64-bit division by a symbolic alpha is
+/// what the SAT back end chokes on):
+///   floor(x) <= r  <=>  (r + 1) * a > c * max        r <= ceil(x)  <=>  (r - 1) * a < c * max
 fn div_ok(r: u64, c: u64, a: u64, max: u64) -> bool {
     if a == 0 {
         return r == 0;
     }
     let num = c * max;
-    let q = num / a;
-    let exact = num % a == 0;
-    let lo = if q > max { max } else { q };
-    let hi_unsat = if exact { q } else { q + 1 };
-    let hi = if hi_unsat > max { max } else { hi_unsat };
-    r >= lo && r <= hi
+    let not_above = r == 0 || (r - 1) * a < num;
+    let not_below = r == max || (r + 1) * a > num;
+    r <= max && not_above && not_below
 }
 
 #[derive(Clone, Copy, PartialEq)]
@@ -46,7 +47,7 @@ fn bg(i: usize, j: usize, max: u64) -> u64 {
     }
 }
 
-pub fn run_case<P, const K: usize, const N: usize, const M: usize>(cpu: CpuExtensions, op: Op, alpha_lo: u64, alpha_hi: u64)
+pub fn run_case<P, const K: usize, const N: usize, const M: usize>(cpu: CpuExtensions, op: Op, idx: usize, alpha_lo: u64, alpha_hi: u64)
 where
     P: PixelTrait,
     P::Component: KComp + kani::Arbitrary + From<u8> + TryFrom<u64>,
@@ -69,8 +70,8 @@ where
         }
         i += 1;
     }
-    let idx: usize = kani::any();
-    kani::assume(idx < K);
+    // the position of the symbolic pixel is enumerated by the harness instances: a symbolic
+    // position makes every lane's float division symbolic (10 min per harness instead of 30 s)
     let mut j = 0;
     while j < N {
         src[idx * N + j] = kani::any();
@@ -118,8 +119,13 @@ where
                 assert!(r == 0, "C06: divide_alpha with alpha = 0 gives colour 0");
             } else if c <= a {
                 assert!(div_ok(r, c, a, max), "C06: divide_alpha is one of the two neighbours of c*max/a (colour <= alpha)");
-            } else {
+            } else if c * max < (a << 31) {
                 assert!(div_ok(r, c, a, max), "C06: divide_alpha saturates at max when colour > alpha");
+            } else {
+                assert!(
+                    div_ok(r, c, a, max),
+                    "C06: divide_alpha saturates at max when the quotient does not fit 31 bits (16-bit, alpha 1, colour > 32768)"
+                );
             }
             j += 1;
         }
@@ -127,16 +133,16 @@ where
     }
     let c0 = src[idx * N].to_i64() as u64;
     kani::cover!(c0 > a_sym && a_sym > alpha_lo, "colour above alpha reachable");
-    kani::cover!(c0 < a_sym && c0 > 0 && idx + 1 == K, "last pixel of the row, colour below alpha");
-    kani::cover!(idx == 0 && a_sym == alpha_hi, "first pixel, largest alpha of the slice");
+    kani::cover!(c0 < a_sym && c0 > 0, "colour below alpha reachable");
+    kani::cover!(a_sym == alpha_hi, "largest alpha of the slice");
 }
 
 macro_rules! c06 {
-    ($name:ident, $P:ty, $K:expr, $N:expr, $cpu:ident, $op:ident, $lo:expr, $hi:expr, $unwind:expr) => {
+    ($name:ident, $P:ty, $K:expr, $N:expr, $cpu:ident, $op:ident, $idx:expr, $lo:expr, $hi:expr, $unwind:expr) => {
         x86_proof! {
             #[kani::unwind($unwind)]
             pub fn $name() {
-                run_case::<$P, $K, $N, { $K * $N }>(CpuExtensions::$cpu, Op::$op, $lo, $hi);
+                run_case::<$P, $K, $N, { $K * $N }>(CpuExtensions::$cpu, Op::$op, $idx, $lo, $hi);
             }
         }
     };
